@@ -490,10 +490,23 @@ class Sim:
         files = self.trace_files
         sim = self
 
-        def local(frame, event, arg):
-            if event == "line":
-                sim.preempt_point()
-            return local
+        import os
+        if os.environ.get("VERIF_TRACE_LINES"):
+            self.line_log = []
+
+            def local(frame, event, arg):
+                if event == "line":
+                    c = sim.current
+                    self.line_log.append("%s %s:%d %s" % (
+                        c.name if c else "?", frame.f_code.co_filename.rsplit("/", 1)[1],
+                        frame.f_lineno, frame.f_code.co_name))
+                    sim.preempt_point()
+                return local
+        else:
+            def local(frame, event, arg):
+                if event == "line":
+                    sim.preempt_point()
+                return local
 
         def glob(frame, event, arg):
             if frame.f_code.co_filename in files:
